@@ -78,7 +78,7 @@ def jobs(tier, seed):
       for s in (['tsize'], ['gratio'], ['k']):
         out.append(_mk('P1', m, s, el, 'e%d-iroas0-nobudget' % i,
                        conc=dict(iroas=0.0)))
-      for h in ('prior', 'interleave', 'second'):
+      for h in ('prior', 'interleave', 'interleave_small', 'second'):
         out.append(_mk('P1', m, ['ngm'], el, 'e%d-%s' % (i, h), history=h))
       # zero iroas: budgets are infinite
       out.append(_mk('P1', m, ['budget'], el, 'e%d-iroas0' % i,
